@@ -10,6 +10,9 @@ Case lines (shared with harness/c11):
   tick                                      one timer tick (the real call_heart_beat)
 op syntax (comma separated):
   shb,o<t>,<n> | q,o<t> | dest,o<t> | clone,o<new>,<kind>,<n> | err | flag | hbs | take,o<item>
+  cerr (error inside catch) | reload,o<t>,<n> (reload_object; create() does set_heart_beat(n)) | living (enable_commands)
+  | burn (use up evaluation cost) | rp (replace_program by the inherited program without heart_beat)
+  tflags <n>                                MAIN_OPTION (timer_flags) = n
 o0 = blueprint /c11/obj (has heart_beat), o1 = blueprint /c11/nohb (no heart_beat function); both always loaded.
 -/
 import NV.Common.Proto
@@ -34,6 +37,11 @@ def parseOp (s : String) : Option Op :=
   | ["flag"] => some .flag
   | ["hbs"] => some .hbs
   | ["take", i] => do some (.take (← parseOid i))
+  | ["cerr"] => some .cerr
+  | ["reload", t, n] => do some (.reload (← parseOid t) (← n.toInt?))
+  | ["living"] => some .living
+  | ["burn"] => some .burn
+  | ["rp"] => some .rp
   | _ => none
 
 def oid (o : Nat) : String := s!"o{o}"
@@ -64,6 +72,18 @@ def render : Ev → String
   | .topNoObj o => s!"r {oid o} do_op !noobj"
   | .flag o => s!"r flag {oid o}"
   | .hbs s l => s!"r hbs {oid s} " ++ (if l.isEmpty then "-" else ",".intercalate (l.map oid))
+  | .ctx o lv tp full =>
+    s!"ctx {oid o} {if lv then 1 else 0} {match tp with | some p => oid p | none => "-"} {if full then "full" else "low"}"
+  | .caught o => s!"caught *boom {oid o}"
+  | .reload s t n q => s!"r reload {oid s} {oid t} {n} {q}"
+  | .reloadNone s t => s!"r reload {oid s} {oid t} !none"
+  | .living o => s!"r living {oid o}"
+  | .burn o => s!"r burn {oid o}"
+  | .tickOff => "tickbegin off"
+  | .tflags n => s!"tflags {n}"
+  | .rp o => s!"r rp {oid o}"
+  | .rpNone o => s!"r rp {oid o} !none"
+  | .rpDone o => s!"rpdone {oid o}"
   | .junk s => s
 
 def parseOids (s : String) : Option (List Nat) :=
@@ -102,6 +122,22 @@ def parseEv (line : String) : Ev :=
     | ["r", o, "do_op", "!noobj"] => do some (.topNoObj (← parseOid o))
     | ["r", "flag", o] => do some (.flag (← parseOid o))
     | ["r", "hbs", s, l] => do some (.hbs (← parseOid s) (← parseOids l))
+    | ["ctx", o, lv, tp, ec] =>
+      do
+        let lv ← (if lv == "1" then some true else if lv == "0" then some false else none)
+        let tp ← (if tp == "-" then some none else (parseOid tp).map some)
+        let ec ← (if ec == "full" then some true else if ec == "low" then some false else none)
+        some (.ctx (← parseOid o) lv tp ec)
+    | ["caught", "*boom", o] => do some (.caught (← parseOid o))
+    | ["r", "reload", s, t, "!none"] => do some (.reloadNone (← parseOid s) (← parseOid t))
+    | ["r", "reload", s, t, n, q] => do some (.reload (← parseOid s) (← parseOid t) (← n.toInt?) (← q.toInt?))
+    | ["r", "living", o] => do some (.living (← parseOid o))
+    | ["r", "burn", o] => do some (.burn (← parseOid o))
+    | ["tickbegin", "off"] => some .tickOff
+    | ["tflags", n] => do some (.tflags (← n.toInt?))
+    | ["r", "rp", o] => do some (.rp (← parseOid o))
+    | ["r", "rp", o, "!none"] => do some (.rpNone (← parseOid o))
+    | ["rpdone", o] => do some (.rpDone (← parseOid o))
     | _ => none
   match r with
   | some e => e
@@ -137,6 +173,10 @@ def parseLine (p : Parsed) (line : String) : Parsed :=
     | some k, some op => { p with cmds := Cmd.op k op :: p.cmds }
     | _, _ => { p with bad := line :: p.bad }
   | ["tick"] => { p with cmds := Cmd.tick :: p.cmds }
+  | ["tflags", n] =>
+    match n.toNat? with
+    | some k => { p with cmds := Cmd.tflags k :: p.cmds }
+    | none => { p with bad := line :: p.bad }
   | _ => if line.startsWith "#" then p else { p with bad := line :: p.bad }
 
 def parseCase (lines : List String) : Parsed :=
